@@ -153,6 +153,9 @@ fn get_disambiguating_chars(
         (true, true) => to_algebraic(chess_move.from_square()).to_string(),
         (true, false) => starting_rank_char.to_string(),
         (false, true) => starting_file_char.to_string(),
+        // Like pieces on different files and different ranks (e.g. knights on b1 and f3
+        // that can both reach d2) are told apart by file.
+        (false, false) if !ambiguous_moves.is_empty() => starting_file_char.to_string(),
         (false, false) => EMPTY_STRING.to_string(),
     }
 }
